@@ -194,15 +194,51 @@ Definition nonempty (o : option bytes) : bool :=
 Definition config_node (t : tree) : pres tree :=
   if root_in t [a_ s_config; b_ s_config] then POk t else PErr XMLError.
 
-(* iosxe.transform_edit_config: a single un-namespaced <config> child is moved to the base namespace *)
-Definition iosxe_patch (p : profile) (t : tree) : tree :=
-  if p_iosxe p then
-    match t with
-    | Elem q a cs => if qname_eqb q (a_ s_config) then Elem (b_ s_config) a cs else t
-    | _ => t
-    end
-  else t.
+(* ---------------- the device profiles' hook on the finished <edit-config> element ----------------
+   EditConfig.request ends with  node = self._device_handler.transform_edit_config(node).
+   DefaultDeviceHandler.transform_edit_config (13 of the 14 profiles):  return node
+   IosxeDeviceHandler.transform_edit_config:
+       nodes = node.findall("./config")       the DIRECT element children of node named config in NO namespace
+       if len(nodes) == 1: nodes[0].tag = '{base}config'
+       return node
+   Modelled at that granularity: a function on the whole operation element.  It looks at the names of the direct
+   children only; nothing below them, no attribute, no text is read or written; with no such child, or with more than
+   one, the tree is returned as it is. *)
+Definition is_bare_config (t : tree) : bool :=
+  match t with Elem q _ _ => qname_eqb q (a_ s_config) | Text _ => false end.
+Definition to_base_config (t : tree) : tree :=
+  match t with
+  | Elem q a cs => if qname_eqb q (a_ s_config) then Elem (b_ s_config) a cs else t
+  | Text _ => t
+  end.
+Definition iosxe_transform (node : tree) : tree :=
+  match node with
+  | Elem q a cs =>
+      match filter is_bare_config cs with
+      | [_] => Elem q a (map to_base_config cs)
+      | _ => node
+      end
+  | Text _ => node
+  end.
+Definition transform_edit_config (p : profile) (node : tree) : tree :=
+  if p_iosxe p then iosxe_transform node else node.
 
+(* what the hook amounts to for the one element of the caller that EditConfig.request appends
+   (Proofs/BuildersProofs.v edit_config_node_eq: the hook on the finished node = this patch on that element) *)
+Definition iosxe_patch (p : profile) (t : tree) : tree :=
+  if p_iosxe p then to_base_config t else t.
+
+(* the config parameter as EditConfig.request appends it *)
+Definition cfg_nodes (c : cfgarg) : pres (list tree) :=
+  match c with
+  | CfgXml t => let* t' := config_node t in POk [t']
+  | CfgText s => let* l := leaf (b_ s_configuration_text) s in POk [Elem (b_ s_config_text) [] [l]]
+  | CfgUrl s ok => if ok then let* l := leaf (b_ s_url) s in POk [l] else PErr OperationError
+  | CfgOther => POk []
+  | CfgBad e => PErr e
+  end.
+
+(* ... and as it leaves the hook (derived form, used by the specification tables and the proofs) *)
 Definition cfg_children (p : profile) (c : cfgarg) : pres (list tree) :=
   match c with
   | CfgXml t => let* t' := config_node t in POk [iosxe_patch p t']
@@ -226,6 +262,17 @@ Definition cmd_check (c : cmdarg) : pres unit :=
   | _ => POk tt
   end.
 
+(* EditConfig.request: the element is finished, then handed to the profile's hook *)
+Definition edit_config_node (p : profile) (tgt : dsarg) (dop top eop : option bytes) (cfg : cfgarg) : pres tree :=
+  let* t := ds_node s_target tgt in
+  let* d := enum_node (b_ s_default_operation) dop DEFAULT_OPS in
+  let* o := enum_node (b_ s_test_option) top TEST_OPTS in
+  let* e := enum_node (b_ s_error_option) eop ERROR_OPTS in
+  let* c := cfg_nodes cfg in
+  POk (transform_edit_config p (Elem (b_ s_edit_config) [] (t :: d ++ o ++ e ++ c))).
+
+Arguments edit_config_node : simpl never.
+
 (* the operation element *)
 Definition op_node (p : profile) (c : opcall) : pres tree :=
   match c with
@@ -234,13 +281,7 @@ Definition op_node (p : profile) (c : opcall) : pres tree :=
   | OGetConfig src f wd =>
       let* s := ds_node s_source src in let* fl := ofilter f in let* w := wd_node wd in
       POk (Elem (b_ s_get_config) [] (s :: fl ++ w))
-  | OEditConfig tgt dop top eop cfg =>
-      let* t := ds_node s_target tgt in
-      let* d := enum_node (b_ s_default_operation) dop DEFAULT_OPS in
-      let* o := enum_node (b_ s_test_option) top TEST_OPTS in
-      let* e := enum_node (b_ s_error_option) eop ERROR_OPTS in
-      let* c := cfg_children p cfg in
-      POk (Elem (b_ s_edit_config) [] (t :: d ++ o ++ e ++ c))
+  | OEditConfig tgt dop top eop cfg => edit_config_node p tgt dop top eop cfg
   | OCopyConfig tgt src =>
       let* t := ds_node s_target tgt in
       let* s := match src with
